@@ -19,12 +19,15 @@ parameter at a time), the relations of the property statement between the
 ODL methods themselves, the stack of single-parameter ODL evaluations for
 every vectorised call, and corner projection for the factories.
 
-Known findings (``known_findings.d/C19.json``): the input region of each is
-defined by a predicate over the descriptor (`known_region` in `run_geom`);
-cases with ``probe: false`` skip exactly the clause that is known to fail
-there and count it in the evidence notes (``excluded:<id>``), cases with
-``probe: true`` (1 in 5, factories 1 in 2, and every regression replay)
-evaluate it.  Independent clause blocks of one case are all evaluated
+Known findings (``known_findings.d/C19.json``): only three are unrepaired
+and have an excluded input region - F31 / K1 (coverage of
+``cone_beam_geometry``: every volume) and K5 (curved 3-D detector whose
+second alignment step is a half turn, predicate `_halfturn`).  Cases with
+``probe: false`` skip exactly the clause known to fail there and count it in
+the evidence (``excluded:<id>``); cases with ``probe: true`` (1 in 5,
+factories 1 in 2, and every regression replay) evaluate it.  K2, K3, K4,
+K6, K7, K8, K9 are repaired in /repo: their clauses run on every case.
+Independent clause blocks of one case are all evaluated
 (`_Collector`); if several fail, a violation that matches no known finding
 is reported in preference, so a known finding never masks a new one.
 
@@ -35,8 +38,7 @@ Deviations from DESIGN.md section 5 (C19):
   flat 1e-12 (derived, tighter);
 * rank-mixed parameters (scalar angle with an n-D detector array) ARE
   generated: the docstring promises ``broadcast(mparam, dparam).shape``;
-  the library raises there (known finding K2), equal-shape pairs and
-  explicit ``(m, 1)`` / ``(1, n)`` outer products work as DESIGN says;
+  the library raised there (finding K2, repaired in /repo);
 * the factory coverage uses ALL generated angles, not ">= 12";
 * additional clauses: constructors must not modify the arrays they are
   given, slicing twice / slicing must not change the parent or earlier
@@ -928,16 +930,6 @@ def run_geom(desc):
     # ---- detector clauses --------------------------------------------------
     probe = bool(desc.get('probe', True))
     strata.append('probe-known-regions:' + str(probe))
-    notes = {}
-
-    def known_region(fid, cond):
-        """Input region of a known finding: evaluated only in probing
-        cases (and by the finding's own regression replay)."""
-        if cond and not probe:
-            notes['excluded:' + fid] = notes.get('excluded:' + fid, 0) + 1
-            return True
-        return False
-
     dsingle = check_detector(geom.detector, ref.det, kind, dlo, dhi, dcomps,
                              cb, strata, amp=amp, probe=probe)
     meas = dsingle['measure']
@@ -1125,17 +1117,10 @@ def run_geom(desc):
         check_detector_bounds(geom.detector, kind, dlo, dhi, cb, ref.det,
                               strata)
 
-    pc_d = _patclass(None, dcomps)
-    k3 = kind in ('cyl', 'sph') and 'within-d' in pc_d
-    k6 = M == 3 and _bshape(mcomps) != _bshape(mcomps[:2])
-    if not known_region('C19-K3', k3):
-        col.run(check_detector_vec, geom.detector, kind, dcomps, dsingle,
-                strata)
-    if shape_m != () and not known_region('C19-K6', k6):
+    col.run(check_detector_vec, geom.detector, kind, dcomps, dsingle, strata)
+    if shape_m != ():
         col.run(vec_motion)
-    if shape != () and not (known_region('C19-K2', 'rankmix' in pc) or
-                            known_region('C19-K3', k3) or
-                            known_region('C19-K6', k6)):
+    if shape != ():
         col.run(vec_joint)
     if M == 1:
         col.run(group_law)
@@ -1145,15 +1130,12 @@ def run_geom(desc):
         col.run(_check_bad, geom, bad, cname, dname, mlo, mhi, dlo, dhi, M, D)
         strata.append('bad-shapes:' + bad)
     if desc.get('slice') is not None:
-        if not known_region('C19-K9', cls == 'cone' and kind in ('cyl',
-                                                                  'sph')):
-            col.run(_check_slice, geom, ref, desc['slice'], cname, argcls, n,
-                    M, D, tol, dlo, dhi, divergent, strata, passed)
+        col.run(_check_slice, geom, ref, desc['slice'], cname, argcls, n, M,
+                D, tol, dlo, dhi, divergent, strata, passed)
     else:
         col.run(_check_purity, passed, cname)
-    if not known_region('C19-K4', D == 2 and 'within-d' in pc_d):
-        col.run(check_detector_measure_vec, geom.detector, kind, dcomps,
-                meas, strata)
+    col.run(check_detector_measure_vec, geom.detector, kind, dcomps, meas,
+            strata)
     col.finish()
 
     generic = (mode == 'frommatrix' or any(
@@ -1162,7 +1144,7 @@ def run_geom(desc):
                   'det_axes_init')))
     nontriv = bool(generic or shape != () or kind in ('circ', 'cyl', 'sph')
                    or g.get('pitch') or src_f or det_f)
-    return Outcome('ok', strata=strata, nontrivial=nontriv, notes=notes)
+    return Outcome('ok', strata=strata, nontrivial=nontriv)
 
 
 def _check_purity(passed, cname):
@@ -1355,20 +1337,11 @@ def run_detector(desc):
     dcomps = _params_from_fracs(pat['d'], dlo, dhi)
     probe = bool(desc.get('probe', True))
     strata.append('probe-known-regions:' + str(probe))
-    notes = {}
     dsingle = check_detector(det, refdet, kind, dlo, dhi, dcomps, cb, strata,
                              probe=probe)
     meas = dsingle['measure']
-    within = _within(dcomps)
-
-    def known_region(fid, cond):
-        if cond and not probe:
-            notes['excluded:' + fid] = 1
-            return True
-        return False
     col = _Collector()
-    if not known_region('C19-K3', kind in ('cyl', 'sph') and within):
-        col.run(check_detector_vec, det, kind, dcomps, dsingle, strata)
+    col.run(check_detector_vec, det, kind, dcomps, dsingle, strata)
     col.run(check_detector_bounds, det, kind, dlo, dhi, cb, refdet, strata)
 
     def bad_within():
@@ -1387,13 +1360,12 @@ def run_detector(desc):
 
     if pat.get('bad') == 'within-d' and len(dlo) == 2:
         col.run(bad_within)
-    if not known_region('C19-K4', len(dlo) == 2 and within):
-        col.run(check_detector_measure_vec, det, kind, dcomps, meas, strata)
+    col.run(check_detector_measure_vec, det, kind, dcomps, meas, strata)
     col.finish()
     nontriv = (dd.get('axes_mode') != 'default' or kind in ('circ', 'cyl',
                                                             'sph')
                or _bshape(dcomps) != ())
-    return Outcome('ok', strata=strata, nontrivial=nontriv, notes=notes)
+    return Outcome('ok', strata=strata, nontrivial=nontriv)
 
 
 # --------------------------------------------------------------------------
